@@ -22,6 +22,10 @@ Record otask := {
   ot_nm : positive;               (* MemoryOfEveryGpuOnNode of the node it was tried on *)
   ot_gate : option verdict;       (* observed node-level verdict; None = not evaluated *)
   ot_charge : option rq;          (* observed QuantifyResourceRequirements(AcceptedResource) once allocated *)
+  ot_tried : list (positive * verdict);
+    (* action stream: the candidate nodes the allocation attempt that placed the task passed over before the node
+       it went to ([ot_nm]), in the order they were tried: MemoryOfEveryGpuOnNode of the candidate and the verdict
+       the LIVE session's node-level gate gave there (Session.IsTaskAllocationOnNodeOverCapacityFns[0], wrapped) *)
 }.
 
 Inductive adm := AdmYes | AdmNo | AdmPanic.
@@ -133,6 +137,33 @@ Definition charges_agree (es : list entry) (ts : list otask) : bool :=
 Definition placement_allowed (po bnd : bool) : bool :=
   negb bnd || existsb (fun idle => match op_of po idle with OpAllocate => true | OpPipeline => false end) [true; false].
 
+(** the attempt the observations describe: the candidates passed over (the oracle said no, or the gate did),
+    then the node the task went to (the oracle said yes) *)
+Definition cands_of (o : otask) : list cnode :=
+  map (fun mv => {| cn_id := 1; cn_mem := fst mv; cn_rest := false |}) (ot_tried o)
+  ++ [{| cn_id := 2; cn_mem := ot_nm o; cn_rest := true |}].
+Definition ajob_of (jq : positive) (pre : bool) (ts : list otask) : ajob :=
+  {| aj_queue := jq; aj_preempt := pre; aj_tasks := map (fun o => (ot_task o, cands_of o)) ts |}.
+
+Definition list_eqb {A B} (e : A -> B -> bool) (l : list A) (l' : list B) : bool :=
+  (List.length l =? List.length l')%nat && forallb (fun p => e (fst p) (snd p)) (combine l l').
+Definition entry_eqb (a b : entry) : bool :=
+  Pos.eqb (e_task a) (e_task b) && Pos.eqb (e_queue a) (e_queue b) && Bool.eqb (e_preempt a) (e_preempt b)
+  && rq_eqb (e_charge a) (e_charge b).
+Definition queue_eqb (a b : queue) : bool :=
+  Pos.eqb (q_id a) (q_id b) && Pos.eqb (q_parent a) (q_parent b) && rq_eqb (q_alloc a) (q_alloc b) && rq_eqb (q_np a) (q_np b).
+
+Definition attempt_agrees (fuel : nat) (qs : list queue) (jq : positive) (pre : bool) (ts : list otask)
+           (qs' : list queue) (es : list entry) : bool :=
+  match attempt_job fuel qs (ajob_of jq pre ts) with
+  | Done (APlaced qs1 es1 wh trace) =>
+      list_eqb queue_eqb qs1 qs' && list_eqb entry_eqb es1 es
+      && list_eqb (fun (tc : task * cnode) (o : otask) => Pos.eqb (cn_id (snd tc)) 2 && Pos.eqb (cn_mem (snd tc)) (ot_nm o)) wh ts
+      && list_eqb (fun (vs : list verdict) (o : otask) =>
+                     list_eqb verdict_eqb vs (map snd (ot_tried o) ++ [Schedulable])) trace ts
+  | _ => false
+  end.
+
 Definition agree_step (fuel : nat) (s : state) (x : ostep) : bool * option state :=
   match x with
   | OProbe jq pre ts vjob vnp =>
@@ -153,7 +184,12 @@ Definition agree_step (fuel : nat) (s : state) (x : ostep) : bool * option state
       match allocate_job po fuel (s_queues s) j, a with
       | Done (Accepted qs es), AdmYes =>
           (verdict_eqb vjob Schedulable && forallb (fun o => match ot_gate o with Some Schedulable => true | _ => false end) ts
-           && charges_agree (rev es) ts && placement_allowed po bnd,
+           && charges_agree (rev es) ts && placement_allowed po bnd
+           (* the same decision with the node search spelled out: per task the candidates the real attempt
+              passed over, then the node it chose; the model's attempt (node-level gate evaluated for EVERY
+              candidate, with that candidate's GPU memory) must pass over the same candidates with the same
+              verdicts, choose the same node and end in the same queues *)
+           && attempt_agrees fuel (s_queues s) jq pre ts qs es,
            Some {| s_queues := qs; s_ledger := es ++ s_ledger s |})
       | Done (Refused v), AdmNo =>
           ((if verdict_eqb vjob Schedulable
@@ -290,6 +326,18 @@ Fixpoint obs_entries (jq : positive) (pre : bool) (ts : list otask) : option (li
               end
   end.
 
+(** what a gpu-memory pod takes on the node it was placed on, said without the code's AcceptedResource:
+    on each of its devices the share ceil(100 * gpuMemory / MemoryOfEveryGpuOnNode) / 100 of THAT node's GPUs.
+    The charge observed on the pod (which the truth below is summed from) must be that. *)
+Definition memory_share_ok (o : otask) : bool :=
+  let t := ot_task o in
+  match t_type t, ot_charge o with
+  | GpuMemory, Some c =>
+      negb (0 <? g_memory (t_gpu t))%Z
+      || Qeq_bool (r_gpu c) (inject_Z (g_count (t_gpu t)) * frac_on_node (ot_nm o) (g_memory (t_gpu t)))
+  | _, _ => true
+  end.
+
 (** every queue, every resource, both counters: a raise ends within the cap *)
 Definition raise_within_b (qs : list queue) (led led' : list entry) : bool :=
   forallb (fun q => forallb (fun r =>
@@ -339,7 +387,7 @@ Fixpoint monitor_steps (qs : list queue) (led : list entry) (xs : list (ostep * 
       | AdmYes =>
           match obs_entries jq pre ts with
           | Some es =>
-              verdict_eqb vjob Schedulable &&
+              verdict_eqb vjob Schedulable && forallb memory_share_ok ts &&
               match monitor_obs qs led (es ++ led) o with
               | Some led' => monitor_steps qs led' r
               | None => false
